@@ -8,6 +8,7 @@ and the two normalised results are compared up to the renaming / scaling.
 import collections
 import datetime
 
+import numpy as np
 import pandas as pd
 
 from mmv import gen
@@ -29,8 +30,8 @@ ASSUMPTIONS = ['scale factors are powers of two, so the transformed input is exa
                'float comparisons use 1e-10 relative tolerance (summation order inside pandas may differ after a renaming)']
 EXHAUSTIVE = {'quick': False, 'thorough': False}
 HASH_SEEDS = {'quick': [0], 'thorough': [0, 1, 2]}
-MINIMA = {'quick': {'pairs_with_restated_rows': 30, 'pairs_compared': 300, 'designs_compared': 400, 'distinct_nontrivial': 150, 'set:transforms': 6},
-          'thorough': {'pairs_with_restated_rows': 400, 'pairs_compared': 4000, 'designs_compared': 6000, 'distinct_nontrivial': 2000, 'set:transforms': 6}}
+MINIMA = {'quick': {'impact_tie_cases': 8, 'pairs_with_restated_rows': 30, 'pairs_compared': 300, 'designs_compared': 400, 'distinct_nontrivial': 150, 'set:transforms': 6},
+          'thorough': {'impact_tie_cases': 100, 'pairs_with_restated_rows': 400, 'pairs_compared': 4000, 'designs_compared': 6000, 'distinct_nontrivial': 2000, 'set:transforms': 6}}
 N = {'quick': 420, 'thorough': 5000}
 CASE_TIMEOUT = {'quick': 300, 'thorough': 900}
 
@@ -65,9 +66,12 @@ def transform(case, r, kind):
   if 'rename' in kinds:
     vals = panel['values']
     order = sorted(range(len(ids)), key=lambda i: -float((vals[i] * panel['present'][i]).mean()))
-    style = r.choice(['alpha_reverse', 'intlike'])
+    style = r.choice(['alpha_reverse', 'intlike', 'whitespace'])
     names = {}
-    if style == 'alpha_reverse':
+    if style == 'whitespace':
+      for rank, i in enumerate(order):
+        names[i] = [' g%02d', 'g%02d ', ' g%02d ', 'g %02d'][rank % 4] % (len(ids) - rank)   # IDs are arbitrary strings
+    elif style == 'alpha_reverse':
       for rank, i in enumerate(order):
         names[i] = 'g%02d' % (len(ids) - rank)      # largest geo gets the last name
     else:
@@ -130,11 +134,32 @@ def run_case(spec):
         dups.append((i, k, float(pn['values'][i, k]) * r.choice([0.5, 0.9, 1.1, 1.5])))
     pn['dups'] = dups
     case['frame'] = gen.panel_frame(pn, r, shuffle=True)
+  if kind == 'rename' and spec['idx'] % 5 in (0, 1, 2) and G >= 4:
+    # two geos with EXACTLY equal single-geo required impact but different volume (one is the other mirrored in
+    # time plus a constant, integer-valued so the arithmetic is exact), and n_geos_max cutting between them
+    pn = case['panel']
+    pn['values'] = np.round(pn['values'])
+    a, b = r.sample(range(G), 2)
+    pn['values'][b] = pn['values'][a][::-1] + float(r.choice([-7, 13, 40]))
+    pn['present'][:] = True
+    case['elig_rows'] = None
+    kw = case['params']
+    for k2 in ('budget_range', 'treatment_share_range', 'n_pretest_max'):
+      kw.pop(k2, None)
+    kw['n_test'] = min(kw['n_test'], len(pn['dates']) - 4)
+    imp = sl.Truth(case).admitted_model()[1]['impact']
+    ids_ = [str(i) for i in pn['ids']]
+    order_ = sorted(ids_, key=lambda gid: -imp[gid])
+    pos = min(order_.index(ids_[a]), order_.index(ids_[b]))
+    kw['n_geos_max'] = max(2, pos + 1)
+    counters_extra = {'impact_tie_cases': 1}
+  else:
+    counters_extra = {}
   if kind not in ('shuffle', 'all'):
     case['frame'] = gen.panel_frame(case['panel'], None, shuffle=False)
   tcase, idmap, c = transform(case, r, kind)
   desc = sl.describe(case, with_frame=False)
-  counters = collections.Counter()
+  counters = collections.Counter(counters_extra)
   violations = []
   a = sl.run_search(case, which)
   b = sl.run_search(tcase, which)
